@@ -170,7 +170,7 @@ example : isArbo [(2,3),(0,1),(1,2),(1,4)] = true := by decide
 example : isArbo [(0,1),(1,0)] = false := by decide
 
 /-! Non-vacuity: the suite's example skeleton, listed out of order, is an arborescence. -/
-example : Arbo [(2,3),(0,1),(1,2),(1,4)] 0 := by
+theorem arbo_suite_example : Arbo [(2,3),(0,1),(1,2),(1,4)] 0 := by
   have r0 : Reach [(2,3),(0,1),(1,2),(1,4)] 0 0 := Reach.root
   have r1 : Reach [(2,3),(0,1),(1,2),(1,4)] 0 1 := Reach.step r0 (by simp)
   have r2 : Reach [(2,3),(0,1),(1,2),(1,4)] 0 2 := Reach.step r1 (by simp)
@@ -184,6 +184,16 @@ example : Arbo [(2,3),(0,1),(1,2),(1,4)] 0 := by
       rcases he with rfl | rfl | rfl | rfl <;> assumption }
 
 example : toposort [(2,3),(0,1),(1,2),(1,4)] = some [1,2,3,0] := by decide
+
+/-- non-vacuity of `toposort_any_numbering_any_listing`: the suite's skeleton renumbered by
+    n ↦ 2n+3 and listed in reverse meets every hypothesis. -/
+example : ∃ l, toposort [(5,11),(5,7),(3,5),(7,9)] = some l ∧ l.Perm (List.range 4) := by
+  have p : [(5,11),(5,7),(3,5),(7,9)].Perm (relabel (fun n => 2 * n + 3) [(2,3),(0,1),(1,2),(1,4)]) := by
+    show [(5,11),(5,7),(3,5),(7,9)].Perm [(7,9),(3,5),(5,7),(5,11)]
+    exact (List.reverse_perm _).symm
+  obtain ⟨l, h1, h2, _⟩ := toposort_any_numbering_any_listing (fun n => 2 * n + 3)
+    (by intro a b h; omega) arbo_suite_example (by simp) p
+  exact ⟨l, h1, h2⟩
 
 /-! ## why the order has to be parent-first
 
